@@ -167,7 +167,7 @@ Definition grav_compensated (G soft : T) (ign : nat) (nact : nat) (tptype : bool
 
 (* ---------------- REB_GRAVITY_JACOBI ---------------- *)
 (* state: (acc, (Rjx,Rjy,Rjz), Mj) *)
-Definition jac_inner (G : T) (ps : list (Part T)) (j : nat) (Rj : V3) (Mj : T) (i : nat) (acc : list V3)
+Definition jac_inner (G : T) (nact : nat) (tptype : bool) (ps : list (Part T)) (j : nat) (Rj : V3) (Mj : T) (i : nat) (acc : list V3)
     : list V3 :=
   let pi := nth_d P0 ps i in
   let pj := nth_d P0 ps j in
@@ -183,20 +183,23 @@ Definition jac_inner (G : T) (ps : list (Part T)) (j : nat) (Rj : V3) (Mj : T) (
       kick acc i prefact (Qjx, Qjy, Qjz)
     else acc in
   if negb (Nat.eqb i j) && (negb (Nat.eqb i 0) || negb (Nat.eqb j 1)) then
+    (* if (i>=_N_active) continue;  j_is_testparticle = (j>=_N_active) *)
+    if Nat.leb nact i then acc else
     let '(dx, dy, dz) := sep None pi pj in
     let dr := nsqrt N (dx * dx + dy * dy + dz * dz) in
     let prefact := G / (dr * dr * dr) in
     let prefacti := prefact * pm pi in
     let prefactj := prefact * pm pj in
-    let acc1 := kick_sub acc i prefactj (dx, dy, dz) in
+    let acc1 := if negb (Nat.leb nact j) || tptype then kick_sub acc i prefactj (dx, dy, dz) else acc in
     kick acc1 j prefacti (dx, dy, dz)
   else acc.
-Definition grav_jacobi (G : T) (ps : list (Part T)) (acc0 : list V3) : list V3 :=
+(* nact = _N_active (N_active == -1 resolved to N) *)
+Definition grav_jacobi (G : T) (nact : nat) (tptype : bool) (ps : list (Part T)) (acc0 : list V3) : list V3 :=
   let n := length ps in
   fst (for_range 0 n (fun j (st : list V3 * (V3 * T)) =>
     let '(acc, (Rj, Mj)) := st in
     let acc := upd acc j v0 in
-    let acc := for_range 0 (S j) (jac_inner G ps j Rj Mj) acc in
+    let acc := for_range 0 (S j) (jac_inner G nact tptype ps j Rj Mj) acc in
     let pj := nth_d P0 ps j in
     let '(Rjx, Rjy, Rjz) := Rj in
     (acc, ((Rjx + pm pj * px pj, Rjy + pm pj * py pj, Rjz + pm pj * pz pj), Mj + pm pj)))
@@ -269,4 +272,14 @@ Definition L_C5 (d dcrit : T) : T :=
   else if nltb N 1 y then 1
   else (nofZ N (-252) * y * y * y * y * y + nofZ N 1386 * y * y * y * y - nofZ N 3080 * y * y * y
         + nofZ N 3465 * y * y - nofZ N 1980 * y + nofZ N 462) * y * y * y * y * y * y.
+(* reb_integrator_mercurius_L_infinity.  libm's exp is not modelled: e1 and e2 are oracle arguments standing for
+   exp(-1./y) and exp(-1./(1.-y)) (static double f(double x){ if (x<0) return 0; return exp(-1./x); }) *)
+Definition f_inf (x e : T) : T := if nltb N x 0 then 0 else e.
+Definition L_infinity (e1 e2 : T) (d dcrit : T) : T :=
+  let y := (d - ndec N 1 10 * dcrit) / (ndec N 9 10 * dcrit) in
+  if nltb N y 0 then 0
+  else if nltb N 1 y then 1
+  else f_inf y e1 / (f_inf y e1 + f_inf (1 - y) e2).
+(* the argument y of the changeover functions (what the harness feeds to exp) *)
+Definition L_arg (d dcrit : T) : T := (d - ndec N 1 10 * dcrit) / (ndec N 9 10 * dcrit).
 End Grav.
